@@ -22,6 +22,20 @@ ErrKind(out) ==
 \* what the library calls "strictly monotonic rising" (C12): at least two elements
 StrictRising(x) == Len(x) >= 2 /\ StrictInc(x)
 
+(***************************************************************************)
+(* C12: the declarative classification of a vector from its sequence of     *)
+(* consecutive-pair relations over {"LT", "EQ", "GT"} (NaN-free vectors).   *)
+(***************************************************************************)
+MonoClass(rels) ==
+    LET n == Len(rels)
+        S == {rels[i] : i \in 1..n}
+    IN  IF n = 0 THEN "NotMonotonic"
+        ELSE IF S = {"LT"} THEN "Rising:1"
+        ELSE IF S = {"GT"} THEN "Falling:1"
+        ELSE IF S = {"LT", "EQ"} THEN "Rising:0"
+        ELSE IF S = {"GT", "EQ"} THEN "Falling:0"
+        ELSE "NotMonotonic"
+
 MinLen(st) ==
     CASE st.k = "Linear" -> 2
       [] st.k = "Spline" -> 3
